@@ -473,6 +473,9 @@ impl Sim {
     }
 
     pub fn finish(mut self) -> RunStats {
+        let (_, misses, ev) = self.eng.cache_stats();
+        self.stats.add("cache_evictions", ev);
+        self.stats.add("cache_misses", misses);
         self.close_sessions();
         self.eng.close();
         let _ = util::take_panics();
